@@ -808,7 +808,10 @@ func (r *Run) exec(op Op) error {
 		amv, _ := r.DB.Head().AppendableMinValidTime()
 		r.Trace = append(r.Trace, fmt.Sprintf("tsdb.Open; head min=%d max=%d appendableMinValid=%d; blocks %s", r.DB.Head().MinTime(), r.DB.Head().MaxTime(), amv, r.blocksString()))
 		if r.Cfg.Snapshot {
-			for si := range r.createdThisSession {
+			// any series that ever got a ref and has no data in the head at shutdown (created by a
+			// rolled-back appender, or flushed and garbage-collected) is in neither the snapshot
+			// nor the WAL replayed after it: if it held the highest ref, that number is free again
+			for si := range r.everCreated {
 				if !r.M.Series[si].HasLast && !r.hasOOOHead(si) {
 					r.ghostAtReopen = true
 				}
